@@ -186,6 +186,13 @@ struct Zoo : ZooBase
 	std::list<std::shared_ptr<Inner>> vsObj;
 	std::vector<std::tuple<int32_t, std::string>> vtup;
 	std::string computed;   // loaded from the member the save side computes
+	// XML attributes of the root element (XML archive only)
+	int32_t attrI = 0;
+	uint64_t attrU64 = 0;
+	int64_t attrI64 = 0;
+	bool attrB = false;
+	double attrF = 0;
+	std::string attrS;
 	// wrappers around chrono values (text archives convert them from ISO-8601 text by policy)
 	std::optional<std::chrono::seconds> optDur;
 	std::unique_ptr<std::chrono::seconds> uDur;
@@ -209,6 +216,7 @@ struct Zoo : ZooBase
 	bool altSetDoc = false;                                         // "uset"/"mset" written from vectors of optionals: the document has null elements
 	std::vector<std::optional<std::string>> usetAlt;
 	std::vector<std::optional<int32_t>> msetAlt;
+	std::vector<std::optional<int32_t>> valAlt;   // "val" (valarray) with null elements, same length
 
 	// which load modes are applied to mapOnlyExist/mapUpdate (Clean when false: used for plain round trips)
 	bool useLoadModes = false;
@@ -237,7 +245,7 @@ struct Zoo : ZooBase
 		F(KeyValue("lst", lst));
 		F(KeyValue("fwd", fwd));
 		F(KeyValue("arr", arr));
-		F(KeyValue("val", val));
+		if (!A::IsLoading() && altSetDoc) { F(KeyValue("val", valAlt)); } else { F(KeyValue("val", val)); }
 		F(KeyValue("que", que));
 		F(KeyValue("stk", stk));
 		F(KeyValue("pq", pq));
@@ -283,6 +291,19 @@ struct Zoo : ZooBase
 		if (!A::IsLoading() && altSetDoc) { F(KeyValue("vtup", vtupAlt)); } else { F(KeyValue("vtup", vtup)); }
 		if (!A::IsLoading() && altChronoDoc) { F(KeyValue("optDur", optDurAlt)); F(KeyValue("uDur", uDurAlt)); }
 		else { F(KeyValue("optDur", optDur)); F(KeyValue("uDur", uDur)); }
+		if constexpr (A::archive_type == BitSerializer::ArchiveType::Xml)
+		{
+			using BitSerializer::AttributeValue;
+			if (A::IsLoading() || saveMask == ~0ull)
+			{
+				ar << AttributeValue("attrI", attrI);
+				ar << AttributeValue("attrU64", attrU64);
+				ar << AttributeValue("attrI64", attrI64);
+				ar << AttributeValue("attrB", attrB);
+				ar << AttributeValue("attrF", attrF);
+				ar << AttributeValue("attrS", attrS);
+			}
+		}
 		// a value computed while saving: the KeyValue owns a temporary (loading reads it into a plain member)
 		if constexpr (A::IsSaving()) { if (saveMask == ~0ull) ar << KeyValue("computed", baseName + "/computed-while-saving/" + s); }
 		else { ar << KeyValue("computed", computed); }
